@@ -3,29 +3,36 @@
 
 Correspondence: the REAL `fit` of Positive/Complex wavefunctions and DensityMatrix (tiny models, tiny data) is
 driven by a script (starting_epoch, epochs, N, pos_batch_size, which callback raises `stop_training` at which
-callback-event index, 0-2 user callbacks, time on/off, scheduler on/off, stop pre-set).  Recording callbacks
-(CallbackBase subclasses and LambdaCallbacks), a recording optimizer class and a recording scheduler class passed
-through `optimizer=` / `scheduler=` yield the complete timeline (callback events, optimizer.step, scheduler.step),
-a parameter snapshot at every entry (-> version counter), the (callback index, event) deliveries, the final flag
-and the Timer's prints.  All of it is compared, exactly, with the extracted Coq machine `Protocol.fit_cbs` run on
-the same script (`c12_fit`).
+callback-event index, 0-3 user callbacks plus passive ones, time on/off, scheduler on/off, stop pre-set).
+Callback 0 is a recording CallbackBase subclass with all six hooks (it writes the timeline); the other callbacks
+take the documented public forms in rotation: LambdaCallback with all / some / none of its hooks given (the others
+left at their default None), CallbackBase subclasses overriding only some hooks, a bare CallbackBase(); the
+callbacks are handed over as list / tuple / CallbackList, progbar on now and then.  A recording optimizer class and
+a recording scheduler class passed through `optimizer=` / `scheduler=` complete the timeline (callback events,
+optimizer.step, scheduler.step); a parameter snapshot at every entry gives the version counter.  Timeline,
+(callback index, event) deliveries of the hooks that exist, final flag and final version are compared, exactly,
+with the extracted Coq machine `Protocol.fit_cbs` run on the same script (`c12_fit`).  (A hook left at None is a
+no-op handler that is still called: in the model it is a callback that never raises, and its deliveries are simply
+not observable.)
 
-Oracle (independent of model and code): a Python recogniser of the documented grammar, the reference full run,
-the stop rules of the property statement, "parameters identical between consecutive events unless they are
-BatchStart e b -> BatchEnd e b, and changed inside every batch", optimizer/scheduler step positions and counts,
-pre-stopped run emits nothing and changes nothing, the request persists after fit returns, callbacks are served
-in list order, Timer last.
+Oracle (independent of model and code; demands only what the property statement says): a Python recogniser of the
+documented grammar, the reference full run, the stop rules, "parameters identical between consecutive events unless
+they are BatchStart e b -> BatchEnd e b", optimizer/scheduler step counts (C06), optimizer.step inside its batch,
+pre-stopped run emits nothing and changes nothing, the request persists after fit returns, callbacks are served in
+list order.
 
-Not generated: N = 1 together with input_bases (complex / mixed states).  There `input_bases[pos_batch_perm]` is
-indexed by a one-element tensor, numpy treats it as a scalar index and the batch of bases loses a dimension
-(IndexError in the rotated gradient) — a data-handling edge case of C07's territory, not of the event protocol."""
+Informational only (histogram keys `info:*`, never a verdict): what is printed (Timer wording, number of lines,
+"prints nothing"), the return value of fit, whether every batch moved the parameters, the setter's treatment of
+borderline values (0, 1, numpy.bool_) and the class of the exception it raises."""
 import io, time as _time, contextlib, itertools
 import numpy as np
 
 RULE = ("ALL scripts with starting_epoch in {1,3}, epochs 0..3 (quick) / 0..4 (thorough), batches per epoch 1..3 / 1..4 "
         "(N and pos_batch_size chosen to give that count, dividing and non-dividing, neg_batch_size varied), "
         "a stop raised at every callback-event index of the run or never, by callback 0 of 1, or callback 0 / 1 of 2 "
-        "(CallbackBase subclass and LambdaCallback), time on/off, scheduler on/off, three state types "
+        "(callback 0: full CallbackBase subclass; the others rotate through LambdaCallback with all/some/no hooks, partial "
+        "CallbackBase subclasses, bare CallbackBase(), passed as list/tuple/CallbackList, progbar occasionally), "
+        "time on/off, scheduler on/off, three state types "
         "(quick: full product for positive, a rotating third of the callback/time/scheduler product for complex and mixed; "
         "thorough: full product + random larger scripts incl. negative/zero epochs), plus stop pre-set (explicitly and by "
         "persistence from a previous stopped run), runs without callbacks, and a malformed stream for the stop_training "
@@ -33,7 +40,8 @@ RULE = ("ALL scripts with starting_epoch in {1,3}, epochs 0..3 (quick) / 0..4 (t
 ASSUMPTIONS = ["callbacks only ever raise stop_training (a callback that lowers it is outside the property)",
                "the recording optimizer is SGD with lr = 0.1 and weight_decay = 0.05 (passed through optimizer_args), so every "
                "optimizer.step moves the non-zero weights even when the CD gradient of a tiny batch happens to cancel exactly",
-               "the Timer's deliveries are observed only through what it prints"]
+               "the Timer appended by time=True is not observed (what it prints is informational only); that time=True leaves "
+               "the user callbacks' protocol untouched is observed"]
 
 TS, ES, BS, BE, EE, TE, OPT, SCHED = range(8)
 NAMES = ["TrainStart", "EpochStart", "BatchStart", "BatchEnd", "EpochEnd", "TrainEnd", "OptStep", "SchedStep"]
@@ -53,6 +61,7 @@ class Tape:
         self.timeline = []       # [code, e, b, snapshot]
         self.deliveries = []     # (callback index, code, e, b)
         self.zero_grad_steps = 0
+        self.nvis = 0            # callback events recorded so far (by callback 0)
 
     def snap(self):
         return self.torch.cat([p.detach().reshape(-1) for p in self.params]).clone()
@@ -73,40 +82,67 @@ class Tape:
         self.timeline.append([kind, e, b, self.snap()])
 
 
-def make_callbacks(tape, m, raise_i, raiser):
-    """m recording callbacks; even indices: CallbackBase subclasses, odd: LambdaCallbacks."""
+ALL6 = (TS, ES, BS, BE, EE, TE)
+HOOK = {TS: "on_train_start", TE: "on_train_end", ES: "on_epoch_start", EE: "on_epoch_end", BS: "on_batch_start", BE: "on_batch_end"}
+SUBSETS = [ALL6, (TS, EE, TE), (ES, BS, BE), (BE, EE), (BS,), (TS, BS, BE, EE, TE), (EE,), (ES, TE)]
+EXTRAS = [[], [("lambda", ())], [("base", (EE,))], [("bare", ()), ("lambda", (BE,))], [("base", (BS, TE))], [("lambda", ALL6)]]
+
+
+def callback_forms(case):
+    """Per callback (user callbacks 0..ncb-1, then passive extras): (form, hooks that exist).
+    Callback 0 is always the full recorder; a scripted raiser always owns the hook of the event it raises at."""
+    fv = case.get("fv", 0)
+    m = case["ncb"]
+    if m == 0:
+        return []
+    nb = -(-case["N"] // case["bs"])
+    full = full_run(case["start"], case["epochs"], nb)
+    r = case["raise_at"]
+    need = full[r][0] if 0 <= r < len(full) else None
+    forms = [("base", ALL6)]
+    for j in range(1, m):
+        hooks = SUBSETS[(fv + 3 * j) % len(SUBSETS)]
+        if j == case["raiser"] and need is not None and need not in hooks:
+            hooks = tuple(sorted(set(hooks) | {need}))
+        forms.append(("lambda" if j % 2 == 1 else "base", tuple(hooks)))
+    forms += EXTRAS[fv % len(EXTRAS)]
+    return forms
+
+
+def make_callbacks(tape, case):
+    """The callbacks of a script in their public forms (see callback_forms)."""
     from qucumber.callbacks import CallbackBase, LambdaCallback
-    counters = [0] * m
+    raise_i = case["raise_at"]
+    raiser = case["raiser"] if case["raiser"] < case["ncb"] else -1      # passive extras never raise
 
     def handle(j, nn_state, code, e, b):
-        k = counters[j]
-        counters[j] += 1
-        tape.deliveries.append((j, code, e, b))
         if j == 0:
             tape.timeline.append([code, e, b, tape.snap()])
+            tape.nvis += 1
+        k = tape.nvis - 1          # ordinal of the current callback event (callback 0 always runs first)
+        tape.deliveries.append((j, code, e, b))
         if j == raiser and k == raise_i:
             nn_state.stop_training = True
 
-    def base_cb(j):
-        class Rec(CallbackBase):
-            def on_train_start(self, s): handle(j, s, TS, 0, 0)
-            def on_train_end(self, s): handle(j, s, TE, 0, 0)
-            def on_epoch_start(self, s, ep): handle(j, s, ES, ep, 0)
-            def on_epoch_end(self, s, ep): handle(j, s, EE, ep, 0)
-            def on_batch_start(self, s, ep, b): handle(j, s, BS, ep, b)
-            def on_batch_end(self, s, ep, b): handle(j, s, BE, ep, b)
-        return Rec()
+    def hook_fn(j, code, bound):
+        if code in (TS, TE):
+            f = (lambda self, s: handle(j, s, code, 0, 0)) if bound else (lambda s: handle(j, s, code, 0, 0))
+        elif code in (ES, EE):
+            f = (lambda self, s, ep: handle(j, s, code, ep, 0)) if bound else (lambda s, ep: handle(j, s, code, ep, 0))
+        else:
+            f = (lambda self, s, ep, b: handle(j, s, code, ep, b)) if bound else (lambda s, ep, b: handle(j, s, code, ep, b))
+        return f
 
-    def lambda_cb(j):
-        return LambdaCallback(
-            on_train_start=lambda s: handle(j, s, TS, 0, 0),
-            on_train_end=lambda s: handle(j, s, TE, 0, 0),
-            on_epoch_start=lambda s, ep: handle(j, s, ES, ep, 0),
-            on_epoch_end=lambda s, ep: handle(j, s, EE, ep, 0),
-            on_batch_start=lambda s, ep, b: handle(j, s, BS, ep, b),
-            on_batch_end=lambda s, ep, b: handle(j, s, BE, ep, b))
-
-    return [base_cb(j) if j % 2 == 0 else lambda_cb(j) for j in range(m)]
+    out = []
+    for j, (form, hooks) in enumerate(callback_forms(case)):
+        if form == "bare":
+            out.append(CallbackBase())
+        elif form == "base":
+            cls = type("Rec%d" % j, (CallbackBase,), {HOOK[c]: hook_fn(j, c, True) for c in hooks})
+            out.append(cls())
+        else:
+            out.append(LambdaCallback(**{HOOK[c]: hook_fn(j, c, False) for c in hooks}))
+    return out
 
 
 def make_optimizer(tape):
@@ -180,7 +216,13 @@ def drive(case, state=None):
     data, bases = build_data(kind, case["N"], case["dseed"])
     tape = Tape(s)
     m = case["ncb"]
-    cbs = make_callbacks(tape, m, case["raise_at"], case["raiser"])
+    cbs = make_callbacks(tape, case)
+    fv = case.get("fv", 0)
+    if m and fv % 3 == 1:
+        cbs = tuple(cbs)
+    elif m and fv % 3 == 2:
+        from qucumber.callbacks.callback_list import CallbackList
+        cbs = CallbackList(cbs)
     if case["prestopped"] == "explicit":
         s.stop_training = True
     before = tape.snap()
@@ -192,9 +234,11 @@ def drive(case, state=None):
         kw["scheduler"] = make_scheduler(tape)
     if bases is not None:
         kw["input_bases"] = bases
+    if fv % 16 == 5:
+        kw["progbar"] = True
     buf = io.StringIO()
     torch.manual_seed(case["dseed"] + 1)
-    with contextlib.redirect_stdout(buf):
+    with contextlib.redirect_stdout(buf), contextlib.redirect_stderr(io.StringIO()):
         ret = s.fit(data, **kw)
     after = tape.snap()
     # versions: number of parameter changes seen so far
@@ -273,7 +317,7 @@ def oracle(ctx, case, obs):
         R("pre-stopped run emits no event and takes no optimizer/scheduler step", len(tl) == 0 and not obs["deliveries"], show([(c, e, b) for c, e, b, _ in tl]))
         R("pre-stopped run changes no parameter", torch.equal(obs["before"], obs["after"]))
         R("pre-stopped run: the request persists", obs["flag"] is True)
-        R("pre-stopped run prints nothing", not obs["timer"] and not obs["other_output"], obs["timer"])
+        ctx.count("info:pre-stopped run printed %s" % ("nothing" if not obs["timer"] and not obs["other_output"] else "something"))
         return
     if m == 0:
         # no user callback: only the internal steps are observable
@@ -322,7 +366,7 @@ def oracle(ctx, case, obs):
             R("nothing after TrainEnd", rest == [], show(rest))
     R("the stop request persists after fit returns (and is not invented)", obs["flag"] is bool(raised), (obs["flag"], raised))
 
-    # ---- parameters change only inside batches, and do change there
+    # ---- parameters change only inside batches (whether every batch moved them is informational)
     ok_same, ok_changed, where = True, True, None
     if vsn:
         if not torch.equal(obs["before"], vsn[0]):
@@ -337,7 +381,7 @@ def oracle(ctx, case, obs):
         if not inside and not same:
             ok_same, where = False, show(vis[i:i + 2])
     R("parameters identical between consecutive events unless BatchStart e b -> BatchEnd e b", ok_same, where)
-    R("parameters changed inside every batch (lr > 0)", ok_changed, where)
+    ctx.count("info:every batch moved the parameters" if ok_changed else "info:some batch left the parameters unchanged")
 
     # ---- optimizer / scheduler steps (C06 step counting)
     codes = [c for c, *_ in tl]
@@ -345,37 +389,25 @@ def oracle(ctx, case, obs):
     n_sch, n_ee = codes.count(SCHED), codes.count(EE)
     R("number of optimizer steps == number of BatchEnd events", n_opt == n_be, (n_opt, n_be))
     R("number of scheduler steps == number of EpochEnd events (scheduler given) / 0", n_sch == (n_ee if case["sched"] else 0), (n_sch, n_ee))
-    okpos = True
+    okpos, schpos = True, True
     for i, c in enumerate(codes):
         if c == OPT:
             okpos &= (i > 0 and codes[i - 1] == BS and i + 1 < len(codes) and codes[i + 1] == BE)
         if c == SCHED:
-            okpos &= (i + 1 < len(codes) and codes[i + 1] == EE and i > 0 and codes[i - 1] in (BE, ES))
-    R("optimizer.step lies between BatchStart and its BatchEnd; scheduler.step after the batch loop, before EpochEnd", okpos,
-      [NAMES[c] for c in codes][:60])
+            schpos &= (i + 1 < len(codes) and codes[i + 1] == EE and i > 0 and codes[i - 1] in (BE, ES))
+    R("optimizer.step lies between BatchStart and its BatchEnd", okpos, [NAMES[c] for c in codes][:60])
+    if case["sched"]:
+        ctx.count("info:scheduler.step directly before EpochEnd" if schpos else "info:scheduler.step elsewhere in the epoch")
 
     # ---- dispatch order
-    want = [[j, c, e, b] for (c, e, b) in vis for j in range(m)]
-    R("every event reaches the callbacks in list order", obs["deliveries"] == want, {"got": obs["deliveries"][:12], "want": want[:12]})
+    forms = callback_forms(case)
+    want = [[j, c, e, b] for (c, e, b) in vis for j, (_, hooks) in enumerate(forms) if c in hooks]
+    R("every event reaches the callbacks (every hook that exists) in list order", obs["deliveries"] == want,
+      {"got": obs["deliveries"][:12], "want": want[:12], "forms": forms})
 
-    # ---- Timer
+    # ---- what is printed is not part of the property: informational
     if not case["time"]:
-        R("time=False prints nothing", not obs["timer"] and not obs["other_output"], (obs["timer"], obs["other_output"]))
-    else:
-        el = [x for x in obs["timer"] if x[0] == 2]
-        term = [x for x in obs["timer"] if x[0] != 2]
-        R("Timer reports the elapsed time exactly once, last", len(el) == 1 and obs["timer"][-1][0] == 2, obs["timer"])
-        want_t = []
-        if raised:
-            for (c, e, b) in vis[r:]:
-                if c == BE:
-                    want_t = [[0, e, b]]
-                    break
-                if c == EE:
-                    want_t = [[1, e, 0]]
-                    break
-        R("Timer (appended last) announces the termination once, at the first batch/epoch end at which the request is up",
-          term == want_t, {"got": term, "want": want_t})
+        ctx.count("info:time=False printed %s" % ("nothing" if not obs["timer"] and not obs["other_output"] else "something"))
 
 
 # ----------------------------------------------------------------------------- one case
@@ -385,8 +417,9 @@ def model_run(ctx, case):
     raiser = case["raiser"]
     r = case["raise_at"] if (case["raise_at"] >= 0 and raiser < case["ncb"]) else -1
     pre = 1 if case["prestopped"] else 0
+    total = len(callback_forms(case))          # user callbacks + passive extras
     out = m.call("c12_fit", case["start"], case["epochs"], nb, pre, 1 if case["sched"] else 0, r,
-                 case["ncb"], raiser, 1 if case["time"] else 0, 0)
+                 total, raiser if raiser < case["ncb"] else total, 1 if case["time"] else 0, 0)
     log, stop, ver, dl, tm, rec = out
     I = lambda rows: [[int(x) for x in row] for row in rows]
     return {"nb": nb, "log": I(log), "stop": bool(stop), "ver": int(ver), "deliveries": I(dl), "timer": I(tm), "recognised": bool(rec)}
@@ -395,11 +428,17 @@ def model_run(ctx, case):
 def run_case(ctx, case, state=None):
     nb_py = -(-case["N"] // case["bs"])
     n_ep = max(0, case["epochs"] + 1 - case["start"])
-    desc = {k: case[k] for k in ("state", "start", "epochs", "N", "bs", "neg_bs", "raise_at", "ncb", "raiser", "time", "sched", "prestopped")}
+    desc = {k: case.get(k, 0) for k in ("state", "start", "epochs", "N", "bs", "neg_bs", "raise_at", "ncb", "raiser", "time", "sched", "prestopped", "fv")}
     ctx.case(desc, nontrivial=(n_ep >= 1 and not case["prestopped"]))
     ctx.count("state:" + case["state"]); ctx.count("nb:%d" % nb_py); ctx.count("epochs_run:%d" % n_ep)
     ctx.count("ncb:%d" % case["ncb"]); ctx.count("time:%s" % case["time"]); ctx.count("sched:%s" % case["sched"])
     ctx.count("stop:" + ("preset" if case["prestopped"] else "never" if case["raise_at"] < 0 else "scripted"))
+    forms = callback_forms(case)
+    for form, hooks in forms[1:]:
+        ctx.count("callback form:%s/%s" % (form, "all hooks" if len(hooks) == 6 else "no hook" if not hooks else "some hooks"))
+    if case["ncb"]:
+        ctx.count("callbacks passed as:" + ("list", "tuple", "CallbackList")[case.get("fv", 0) % 3])
+        ctx.count("progbar:%s" % (case.get("fv", 0) % 16 == 5))
     ok, obs = ctx.call("fit", case, drive, case, state)
     if not ok:
         return None
@@ -410,10 +449,11 @@ def run_case(ctx, case, state=None):
     ctx.agree_exact("batches per epoch (ceil(N/pos_batch_size))", nb_py, mod["nb"], case)
     if m > 0 or case["prestopped"]:
         ctx.agree_exact("timeline (callback events, optimizer/scheduler steps, parameter versions)", obs["log"], mod["log"], case)
-        ctx.agree_exact("deliveries (callback index, event)", obs["deliveries"],
-                        [d for d in mod["deliveries"] if d[0] < m], case)
-        if case["time"]:
-            ctx.agree_exact("Timer messages", obs["timer"], [] if case["prestopped"] else mod["timer"], case)
+        ctx.agree_exact("deliveries (callback index, event) to the hooks that exist", obs["deliveries"],
+                        [d for d in mod["deliveries"] if d[0] < len(forms) and d[1] in forms[d[0]][1]], case)
+        if case["time"]:           # informational: the property does not say what the timing callback prints
+            same = (obs["timer"] == ([] if case["prestopped"] else mod["timer"])) and not obs["other_output"]
+            ctx.count("info:Timer output %s" % ("as modelled" if same else "differs from the model"))
         if not case["prestopped"]:
             ctx.agree_exact("model recogniser accepts the model trace", True, mod["recognised"], case)
     else:
@@ -421,15 +461,15 @@ def run_case(ctx, case, state=None):
                         [r[:1] for r in obs["log"]], [r[:1] for r in mod["log"] if r[0] >= OPT], case)
     ctx.agree_exact("final stop flag", bool(obs["flag"]), mod["stop"], case)
     ctx.agree_exact("final parameter version", obs["log"][-1][3] if obs["log"] else 0, mod["ver"], case)
-    ctx.agree_exact("fit returns None", obs["ret"] is None, True, case)
+    ctx.count("info:fit returned %s" % ("None" if obs["ret"] is None else type(obs["ret"]).__name__))
     # ---- oracle
     oracle(ctx, case, obs)
     ctx.traces += 1
     return obs
 
 
-def mk(kind, start, epochs, N, bs, raise_at=-1, ncb=1, raiser=0, time=False, sched=False, prestopped="", neg_bs=None, dseed=11):
-    return {"state": kind, "start": int(start), "epochs": int(epochs), "N": int(N), "bs": int(bs), "neg_bs": neg_bs,
+def mk(kind, start, epochs, N, bs, raise_at=-1, ncb=1, raiser=0, time=False, sched=False, prestopped="", neg_bs=None, dseed=11, fv=0):
+    return {"fv": int(fv), "state": kind, "start": int(start), "epochs": int(epochs), "N": int(N), "bs": int(bs), "neg_bs": neg_bs,
             "raise_at": int(raise_at), "ncb": int(ncb), "raiser": int(raiser), "time": bool(time), "sched": bool(sched),
             "prestopped": prestopped, "dseed": int(dseed)}
 
@@ -458,28 +498,28 @@ def enumerate_cases(ctx, max_epochs, max_nb, full_product):
                 cfgs = [CONFIGS[(2 * si + ki + i * 5) % len(CONFIGS)] for i in range(2)]
             for (ncb, raiser, time, sched) in cfgs:
                 N, bs = SHAPES[nb][k % len(SHAPES[nb])]
-                if N == 1 and kind != "positive":
-                    N, bs = 2, 3      # a single sample with input_bases is outside fit's working domain (see module doc)
                 neg = [None, bs + 1, 1][k % 3] if k % 4 == 0 else None
                 k += 1
-                yield mk(kind, start, epochs, N, bs, r, ncb, raiser, time, sched, neg_bs=neg, dseed=int(ctx.rng.integers(1, 10 ** 6)))
+                yield mk(kind, start, epochs, N, bs, r, ncb, raiser, time, sched, neg_bs=neg, dseed=int(ctx.rng.integers(1, 10 ** 6)), fv=k)
 
 
 def extras(ctx):
     """pre-stopped runs, persistence, runs without callbacks, out-of-range script indices, setter stream."""
+    fv = 0
     for kind in ("positive", "complex", "mixed"):
         for (start, epochs, nb) in ((1, 2, 2), (3, 3, 1), (1, 0, 3), (2, 3, 3)):
             N, bs = SHAPES[nb][0]
+            fv += 7
             for (ncb, time, sched) in ((1, False, False), (2, True, True), (1, True, False)):
-                yield ("single", mk(kind, start, epochs, N, bs, -1, ncb, 0, time, sched, prestopped="explicit"))
+                yield ("single", mk(kind, start, epochs, N, bs, -1, ncb, 0, time, sched, prestopped="explicit", fv=fv))
             # persistence: a stopped run, then another fit on the same object without resetting the flag
-            yield ("persist", mk(kind, start, epochs, N, bs, 2, 2, 1, True, True))
+            yield ("persist", mk(kind, start, epochs, N, bs, 2, 2, 1, True, True, fv=fv))
             # no callbacks at all
-            yield ("single", mk(kind, start, epochs, N, bs, -1, 0, 0, False, True))
-            yield ("single", mk(kind, start, epochs, N, bs, -1, 0, 0, False, False))
+            yield ("single", mk(kind, start, epochs, N, bs, -1, 0, 0, False, True, fv=fv))
+            yield ("single", mk(kind, start, epochs, N, bs, -1, 0, 0, False, False, fv=fv))
             # the scripted index lies beyond the run / the raiser does not exist: nobody stops
-            yield ("single", mk(kind, start, epochs, N, bs, 10 ** 3, 1, 0, True, True))
-            yield ("single", mk(kind, start, epochs, N, bs, 1, 1, 1, False, True))
+            yield ("single", mk(kind, start, epochs, N, bs, 10 ** 3, 1, 0, True, True, fv=fv))
+            yield ("single", mk(kind, start, epochs, N, bs, 1, 1, 1, False, True, fv=fv))
 
 
 def random_cases(ctx, n):
@@ -490,43 +530,46 @@ def random_cases(ctx, n):
         epochs = start + int(rng.integers(-2, 6))
         nb = int(rng.integers(1, 8))
         N, bs = SHAPES[nb][int(rng.integers(0, len(SHAPES[nb])))]
-        if N == 1 and kind != "positive":
-            N, bs = 2, 3
         n_events = len(full_run(start, epochs, nb))
         r = int(rng.integers(-1, n_events))
         ncb = int(rng.integers(1, 4))
         yield mk(kind, start, epochs, N, bs, r, ncb, int(rng.integers(0, ncb)), bool(rng.integers(0, 2)), bool(rng.integers(0, 2)),
-                 neg_bs=[None, 1, bs + 2][int(rng.integers(0, 3))], dseed=int(rng.integers(1, 10 ** 6)))
+                 neg_bs=[None, 1, bs + 2][int(rng.integers(0, 3))], dseed=int(rng.integers(1, 10 ** 6)), fv=int(rng.integers(0, 48)))
 
 
 def setter_stream(ctx):
-    """malformed stream: only genuine booleans are accepted by the stop_training setter (error kind compared)."""
+    """malformed stream for the stop_training setter.  The property only needs the flag to be a settable, sticky
+    boolean: a genuine bool must be accepted and stored (oracle).  For clearly non-boolean values the comparison with
+    the model is "raises vs does not raise" (never the exception class); borderline values (0, 1, numpy.bool_) and
+    the exception class are informational."""
     m = ctx.get_model()
-    vals = [(0, 0, False, "False"), (1, 0, True, "True"), (2, 3, 3, "3"), (2, 1, 1, "1"), (2, 0, 0, "0"), (3, 0, None, "None"),
-            (4, 0, "yes", "'yes'"), (4, 0, np.bool_(True), "numpy.bool_(True)"), (4, 0, 1.0, "1.0"), (4, 0, [True], "[True]")]
+    vals = [(0, 0, False, "False", "bool"), (1, 0, True, "True", "bool"), (2, 3, 3, "3", "clear"), (3, 0, None, "None", "clear"),
+            (4, 0, "yes", "'yes'", "clear"), (4, 0, [True], "[True]", "clear"), (4, 0, 2.5, "2.5", "clear"),
+            (2, 1, 1, "1", "borderline"), (2, 0, 0, "0", "borderline"), (4, 0, np.bool_(True), "numpy.bool_(True)", "borderline")]
     for kind in ("positive", "complex", "mixed"):
-        for (k, z, val, label) in vals:
+        for (k, z, val, label, cls) in vals:
             s = build_state(kind, 5)
             for cur in (False, True):
                 case = {"call": "stop_training setter", "state": kind, "value": label, "current": cur}
                 ctx.case(case, nontrivial=False)
-                ctx.count("setter:" + ("bool" if k < 2 else "non-bool"))
+                ctx.count("setter:" + cls)
                 s.stop_training = cur
                 try:
                     s.stop_training = val
-                    impl = [bool(s.stop_training)]
-                    err = None
-                except ValueError:
-                    impl, err = [], "ValueError"
-                except Exception as ex:           # any other error kind
-                    impl, err = ["other"], type(ex).__name__
-                mod = [bool(x) for x in m.call("c12_set_stop", k, z)]
-                ctx.agree_exact("stop_training setter: accepted value / error kind", impl, mod, case)
-                if k < 2:
-                    ctx.require("a boolean is accepted and stored", err is None and s.stop_training is val, case, err)
+                    raised, err = False, None
+                except Exception as ex:
+                    raised, err = True, type(ex).__name__
+                mod_raises = (len(m.call("c12_set_stop", k, z)) == 0)
+                if cls == "bool":
+                    ctx.agree_exact("stop_training setter accepts a bool", raised, mod_raises, case)
+                    ctx.require("a boolean is accepted and stored", (not raised) and s.stop_training is val, case, err)
+                elif cls == "clear":
+                    ctx.agree_exact("stop_training setter on a non-boolean: raises vs does not raise", raised, mod_raises, case)
+                    ctx.count("info:setter error class:%s" % err)
+                    if raised:
+                        ctx.count("info:flag %s after a rejected assignment" % ("kept" if s.stop_training is cur else "changed"))
                 else:
-                    ctx.require("a non-boolean is rejected with ValueError and the flag keeps its value",
-                                err == "ValueError" and s.stop_training is cur, case, (err, s.stop_training))
+                    ctx.count("info:setter on %s: %s" % (label, "rejected" if raised else "accepted"))
     ctx.require("the flag of a fresh object is down", build_state("positive", 1).stop_training is False, {"call": "fresh flag"})
 
 
